@@ -137,6 +137,13 @@ def _gen(rng, max_nodes):
 
 
 FIXED = [
+    # a SUSPENDED (not running) watcher among running co-watchers: freeWatchers must skip it and still tell every
+    # running one, wherever the map iteration visits it (several running watchers make a wrong early exit visible
+    # for almost every iteration order)
+    "sys S:a1 S:a2 S:a3 S:a4 S:a5 S:a6 S:a7 W:a2:a1 W:a3:a1 W:a4:a1 W:a5:a1 W:a6:a1 W:a7:a1 F:a4 K:a1",
+    "sys S:a1 S:a2 S:a3 S:a4 S:a5 S:a6 W:a2:a1 W:a3:a1 W:a4:a1 W:a5:a1 W:a6:a1 F:a2 F:a6 Q:a1",
+    "sys S:a1 C:a1:a2 S:a3 S:a4 S:a5 S:a6 W:a3:a2 W:a4:a2 W:a5:a2 W:a6:a2 F:a5 T:a1:a2",
+    "sys S:a1 S:a2 S:a3 S:a4 S:a5 W:a2:a1 W:a3:a1 W:a4:a1 W:a5:a1 F:a3 P:a1",
     # watching a SUSPENDED actor (failed, parked by supervision, alive) is a watch like any other
     "sys S:a1 C:a1:a2 S:a3 S:a4 W:a3:a2 F:a2 W:a4:a2 T:a1:a2",
     "sys S:a1 S:a2 F:a1 W:a2:a1 K:a1",
